@@ -48,7 +48,8 @@ def answer (line : String) : String :=
         let db' := if conclusive e.1 && w.cur != 0 then "none" else if dirty w e.1 then
           (match e.1 with | .approveFailed => "fail" | .compareErr => "cmperr" | _ => "dmg") else db
         let w' := step w e
-        go rest w' cl' hz' db' (s!"A={showAction w'.st.approve} C={showAction w'.st.compare} L={b2s w'.listed}" :: acc)
+        let onDisk := match w'.obs with | .carries _ p => !(w'.removed.contains p) | _ => true
+        go rest w' cl' hz' db' (s!"A={showAction w'.st.approve} C={showAction w'.st.compare} L={b2s w'.listed} @needs={b2s w'.needsApprove},clean={b2s cl'},hz={b2s hz'},db={db'},ne={b2s (w'.curCode != zeros)},od={b2s onDisk}" :: acc)
     let (w, cl, hz, db, outs) := go es {} true false "none" []
     ";".intercalate outs ++
       s!" | needs={b2s w.needsApprove} clean={b2s cl} safe={b2s (failSafeB es {})} hazardAtFail={b2s hz} obs={showObs w.obs} dirtyBy={db} curnonempty={b2s (w.curCode != zeros)}"
